@@ -69,7 +69,7 @@ def expr(n, c: Ctx, subst=None) -> str:
             return f"(EIn {a} {b})"
         if isinstance(n.ops[0], ast.NotEq):
             return f"(ENot (EEq {a} {b}))"
-    if isinstance(n, (ast.List, ast.Tuple)):
+    if isinstance(n, ast.List):      # a tuple display is NOT a list (isinstance, ==): outside the fragment
         return "(EList [" + "; ".join(expr(e, c, subst) for e in n.elts) + "])"
     if isinstance(n, ast.Subscript) and isinstance(n.slice, ast.Slice) and n.slice.upper is None and n.slice.step is None \
             and isinstance(n.slice.lower, ast.Constant) and isinstance(n.slice.lower.value, int) and n.slice.lower.value >= 0:
@@ -82,22 +82,16 @@ def expr(n, c: Ctx, subst=None) -> str:
     if isinstance(n, ast.Call):
         f = n.func
         fsrc = unparse(f)
+        if fsrc == "list" and len(n.args) == 1 and not n.keywords and _is_fromkeys(n.args[0]):
+            return dedupe(n.args[0], c, subst)      # list(dict.fromkeys(..)): the de-duplicated LIST
         if fsrc in c.identity_calls and len(n.args) == 1 and not n.keywords:
             return expr(n.args[0], c, subst)
         if fsrc == "len" and len(n.args) == 1:
             return f"(ELen {expr(n.args[0], c, subst)})"
         if fsrc == "sorted" and len(n.args) == 1 and len(n.keywords) == 1 and n.keywords[0].arg == "key" and unparse(n.keywords[0].value) == "len":
             return f"(ESortLen {expr(n.args[0], c, subst)})"
-        if fsrc == "dict.fromkeys" and len(n.args) == 1 and not n.keywords:
-            a = n.args[0]
-            if isinstance(a, ast.GeneratorExp) and len(a.generators) == 1:
-                g = a.generators[0]
-                if isinstance(g.target, ast.Tuple) and len(g.target.elts) == 2 and all(isinstance(e, ast.Name) for e in g.target.elts) \
-                        and isinstance(g.iter, ast.Call) and unparse(g.iter.func) == "zip" and len(g.iter.args) == 2 and not g.ifs:
-                    x, y = (e.id for e in g.target.elts)
-                    return (f"(EDedupe (EComp2 {expr(a.elt, c, subst)} {cstr(x)} {cstr(y)} "
-                            f"{expr(g.iter.args[0], c, subst)} {expr(g.iter.args[1], c, subst)}))")
-            return f"(EDedupe {expr(a, c, subst)})"
+        if _is_fromkeys(n):
+            return dedupe(n, c, subst)      # a dict read as the list of its keys: fromkeys_check admits it only where that is the same
         if isinstance(f, ast.Attribute):
             m = f.attr
             if m == "replace" and len(n.args) == 2:
@@ -158,6 +152,22 @@ def expr(n, c: Ctx, subst=None) -> str:
     raise Unrecognised(f"expression outside the MiniPy fragment: {src[:100]}")
 
 
+def _is_fromkeys(n):
+    return isinstance(n, ast.Call) and unparse(n.func) == "dict.fromkeys" and len(n.args) == 1 and not n.keywords
+
+
+def dedupe(n, c: Ctx, subst) -> str:
+    a = n.args[0]
+    if isinstance(a, ast.GeneratorExp) and len(a.generators) == 1:
+        g = a.generators[0]
+        if isinstance(g.target, ast.Tuple) and len(g.target.elts) == 2 and all(isinstance(e, ast.Name) for e in g.target.elts) \
+                and isinstance(g.iter, ast.Call) and unparse(g.iter.func) == "zip" and len(g.iter.args) == 2 and not g.ifs:
+            x, y = (e.id for e in g.target.elts)
+            return (f"(EDedupe (EComp2 {expr(a.elt, c, subst)} {cstr(x)} {cstr(y)} "
+                    f"{expr(g.iter.args[0], c, subst)} {expr(g.iter.args[1], c, subst)}))")
+    return f"(EDedupe {expr(a, c, subst)})"
+
+
 def block(body, c: Ctx, subst=None) -> list[str]:
     out = []
     for s in clean(body):
@@ -170,6 +180,12 @@ def stmt(s, c: Ctx, subst=None) -> list[str]:
     if isinstance(s, ast.FunctionDef):
         if s.args.defaults or s.args.kwonlyargs or s.args.vararg or s.args.kwarg:
             raise Unrecognised(f"local def {s.name}: only plain positional parameters")
+        params = {a.arg for a in s.args.args}
+        for n in ast.walk(s):
+            if isinstance(n, ast.Return):
+                raise Unrecognised(f"local def {s.name}: a return inside an inlined def would leave the enclosing method")
+            if isinstance(n, ast.Name) and isinstance(n.ctx, ast.Store) and n.id in params:
+                raise Unrecognised(f"local def {s.name}: assigns its parameter {n.id} (inlining substitutes the argument)")
         c.local_defs[s.name] = s
         return []
     if isinstance(s, ast.AnnAssign) and isinstance(s.target, ast.Name) and s.value is not None:
@@ -243,6 +259,172 @@ def stmt(s, c: Ctx, subst=None) -> list[str]:
     raise Unrecognised(f"statement outside the MiniPy fragment: {unparse(s)[:100]}")
 
 
+# ---- aliasing -------------------------------------------------------------------------------------------------------------
+# Python lists are shared references, MiniPy values are copies: `b = a; a.append(1); return b` differs.  The fragment therefore
+# only admits lists that are mutated (append / extend) as FLAT ACCUMULATORS: a mutated name is bound only to freshly built lists
+# and its object is never stored anywhere else (another name, a list display, an appended element, a call argument); it may be
+# read where only its contents are consumed (len, in, ==, slices, +, iteration that does not mutate it, extend's argument,
+# join, sorted, list(), conditions) and returned.  Everything else fails closed.
+_MUTATORS = ("append", "extend")
+_CONSUMING_CALLS = ("len", "sorted", "list", "zip", "dict.fromkeys", "isinstance")
+
+
+def _vname(node, c: Ctx):
+    if isinstance(node, ast.Name):
+        return node.id
+    if isinstance(node, ast.Attribute) and unparse(node) in c.attr_vars:
+        return unparse(node)
+    return None
+
+
+def _fresh_list(v) -> bool:
+    if isinstance(v, (ast.List, ast.ListComp)):
+        return True
+    if isinstance(v, ast.BinOp) and isinstance(v.op, (ast.Add, ast.Mult)):
+        return True
+    if isinstance(v, ast.Subscript) and isinstance(v.slice, ast.Slice):
+        return True
+    if isinstance(v, ast.Call):
+        f = unparse(v.func)
+        return f in ("sorted", "list") or (isinstance(v.func, ast.Attribute) and v.func.attr == "split")
+    return False
+
+
+def alias_check(body, c: Ctx) -> None:
+    root = ast.Module(body=list(body), type_ignores=[])
+    parent = {}
+    for n in ast.walk(root):
+        for ch in ast.iter_child_nodes(n):
+            parent[ch] = n
+    mutated = set()
+    for n in ast.walk(root):
+        if isinstance(n, ast.Call) and isinstance(n.func, ast.Attribute) and n.func.attr in _MUTATORS:
+            t = _vname(n.func.value, c)
+            if t is not None:
+                mutated.add(t)
+    if not mutated:
+        return
+
+    def bad(name, why):
+        raise Unrecognised(f"aliasing: the list {name} is mutated (append/extend) and {why}")
+
+    def mutates(stmts, name):
+        for s in stmts:
+            for n in ast.walk(s):
+                if isinstance(n, ast.Call) and isinstance(n.func, ast.Attribute) and n.func.attr in _MUTATORS \
+                        and _vname(n.func.value, c) == name:
+                    return True
+        return False
+
+    # bindings of a mutated name: plain assignments of freshly built lists only
+    for n in ast.walk(root):
+        binds = []
+        if isinstance(n, ast.Assign):
+            binds = [(t, n.value) for t in n.targets]
+        elif isinstance(n, ast.AnnAssign) and n.value is not None:
+            binds = [(n.target, n.value)]
+        elif isinstance(n, (ast.For, ast.comprehension)):
+            binds = [(n.target, None)]
+        for t, v in binds:
+            direct = _vname(t, c)
+            if direct in mutated:
+                if v is None or not _fresh_list(v):
+                    bad(direct, "is bound to a value that may be shared with another name")
+                continue
+            for leaf in ast.walk(t):
+                nm = _vname(leaf, c) if isinstance(leaf, (ast.Name, ast.Attribute)) else None
+                if nm in mutated:
+                    bad(nm, "is bound by unpacking / as a loop or comprehension variable")
+        if isinstance(n, ast.FunctionDef):
+            for a in n.args.args:
+                if a.arg in mutated:
+                    bad(a.arg, "is a parameter of a local def")
+
+    # uses of a mutated name: only where its contents are consumed
+    def consumed(node, name):
+        p = parent.get(node)
+        if isinstance(p, ast.Attribute):                       # name.method(..)
+            return isinstance(parent.get(p), ast.Call) and parent[p].func is p
+        if isinstance(p, ast.Call):
+            f = unparse(p.func)
+            if node in p.args:
+                if f in _CONSUMING_CALLS or f in c.prims:
+                    return True
+                if isinstance(p.func, ast.Attribute) and p.func.attr in ("extend", "join"):
+                    return True
+            return False
+        if isinstance(p, (ast.Compare, ast.UnaryOp, ast.BinOp, ast.FormattedValue, ast.Return)):
+            return True
+        if isinstance(p, ast.Subscript):
+            return p.value is node
+        if isinstance(p, ast.comprehension):
+            return p.iter is node
+        if isinstance(p, ast.For):
+            if p.iter is node:
+                if mutates(p.body, name):
+                    bad(name, "is iterated by a loop whose body mutates it")
+                return True
+            return False
+        if isinstance(p, (ast.If, ast.Assert, ast.While)):
+            return p.test is node
+        if isinstance(p, ast.IfExp):
+            return True if p.test is node else consumed(p, name)
+        if isinstance(p, ast.BoolOp):
+            return consumed(p, name)
+        if isinstance(p, ast.List):                            # a list display that is returned at once: nothing runs afterwards
+            return isinstance(parent.get(p), ast.Return)
+        return False
+
+    for n in ast.walk(root):
+        if isinstance(n, (ast.Name, ast.Attribute)) and isinstance(getattr(n, "ctx", None), ast.Load):
+            nm = _vname(n, c)
+            if nm in mutated and not (isinstance(parent.get(n), ast.Attribute) and _vname(parent[n], c) in mutated):
+                if not consumed(n, nm):
+                    bad(nm, f"its object is stored or passed on in `{unparse(parent.get(n))[:60]}`")
+
+
+def fromkeys_check(body, c: Ctx) -> None:
+    """dict.fromkeys(..) is a dict; the interpreter reads it as the list of its distinct keys.  That is the same thing only
+    where the dict is merely iterated: as the argument of list / sorted / len / zip / join, as the iterable of a for or a
+    comprehension, as the right operand of in - directly or through a name that is bound to nothing else."""
+    root = ast.Module(body=list(body), type_ignores=[])
+    parent = {}
+    for n in ast.walk(root):
+        for ch in ast.iter_child_nodes(n):
+            parent[ch] = n
+    dict_names = set()
+    for n in ast.walk(root):
+        if isinstance(n, ast.Assign) and _is_fromkeys(n.value) and len(n.targets) == 1 and isinstance(n.targets[0], ast.Name):
+            dict_names.add(n.targets[0].id)
+
+    def iterated_only(node):
+        p = parent.get(node)
+        if isinstance(p, ast.Call) and node in p.args:
+            return unparse(p.func) in ("list", "sorted", "len", "zip") or (isinstance(p.func, ast.Attribute) and p.func.attr == "join")
+        if isinstance(p, (ast.For, ast.comprehension)):
+            return p.iter is node
+        if isinstance(p, ast.Compare):
+            return len(p.ops) == 1 and isinstance(p.ops[0], (ast.In, ast.NotIn)) and p.comparators[0] is node
+        return False
+
+    for n in ast.walk(root):
+        if _is_fromkeys(n):
+            p = parent.get(n)
+            if isinstance(p, ast.Assign) and p.value is n and len(p.targets) == 1 and isinstance(p.targets[0], ast.Name):
+                continue
+            if not iterated_only(n):
+                raise Unrecognised(f"dict.fromkeys(..) used as a value in `{unparse(p)[:60]}`: it is a dict, the interpreter reads it as a list")
+        if isinstance(n, ast.Name) and n.id in dict_names:
+            if isinstance(n.ctx, ast.Store):
+                p = parent.get(n)
+                if not (isinstance(p, ast.Assign) and _is_fromkeys(p.value)):
+                    raise Unrecognised(f"{n.id} is bound to a dict.fromkeys(..) and to something else")
+            elif not iterated_only(n):
+                raise Unrecognised(f"{n.id} (a dict.fromkeys(..)) is used as a value in `{unparse(parent.get(n))[:60]}`")
+
+
 def method_block(fn: ast.FunctionDef, c: Ctx) -> tuple[str, list[str]]:
+    alias_check(fn.body, c)
+    fromkeys_check(fn.body, c)
     ss = block(fn.body, c)
     return "[" + ";\n   ".join(ss) + "]", list(c.assigned)
